@@ -136,7 +136,9 @@ func runC20(p *eng.Prog, r *eng.Report, tier string) {
 						continue
 					}
 					lt, ok := rs.Results[0].(*ast.BinaryExpr)
-					if !ok || lt.Op != token.LSS || lf.Norm(lt.X, nil) != lf.Norm(be.X, nil) || lf.Norm(lt.Y, nil) != lf.Norm(be.Y, nil) {
+					sameOrder := ok && lf.Norm(lt.X, nil) == lf.Norm(be.X, nil) && lf.Norm(lt.Y, nil) == lf.Norm(be.Y, nil)
+					swapped := ok && lf.Norm(lt.X, nil) == lf.Norm(be.Y, nil) && lf.Norm(lt.Y, nil) == lf.Norm(be.X, nil)
+					if !ok || lt.Op != token.LSS || !(sameOrder || swapped) {
 						okShape = false
 					}
 					fields = append(fields, fx.Sel.Name)
